@@ -25,6 +25,32 @@ def I(file, ctx, fn, impl=None, key=None, nth=None, rename=None):
 
 UNITS = {
     # C17 / C08 / C12 / C13: capacity, layout and probe arithmetic
+    # C01 / C06 / C13 / C02: control-byte logic of the table core over a Vec<u8> view of the control array
+    'ctrl': dict(
+        widths=[16, 8],
+        prelude='preludes/ctrl.rs',
+        specs='contracts/ctrl.vspec',
+        lemmas=['lemmas/ctrl_lemmas.rs'],
+        extra='ctrl_rules',
+        items=[
+            I(TAG, r'^impl Tag$', 'is_full', impl='Tag'),
+            I(TAG, r'^impl Tag$', 'is_special', impl='Tag'),
+            I(TAG, r'^impl Tag$', 'special_is_empty', impl='Tag'),
+            I(TAG, r'^impl Tag$', 'full', impl='Tag'),
+            I(RAW, None, 'h1'),
+            I(RAW, None, 'bucket_mask_to_capacity'),
+            I(RAW, r'^impl RawTableInner$', 'buckets', impl='RawTableInner'),
+            I(RAW, r'^impl RawTableInner$', 'num_ctrl_bytes', impl='RawTableInner'),
+            I(RAW, r'^impl RawTableInner$', 'is_empty_singleton', impl='RawTableInner'),
+            I(RAW, r'^impl RawTableInner$', 'probe_seq', impl='RawTableInner'),
+            I(RAW, r'^impl RawTableInner$', 'is_bucket_full', impl='RawTableInner'),
+            I(RAW, r'^impl RawTableInner$', 'set_ctrl', impl='RawTableInner'),
+            I(RAW, r'^impl RawTableInner$', 'set_ctrl_hash', impl='RawTableInner'),
+            I(RAW, r'^impl RawTableInner$', 'replace_ctrl_hash', impl='RawTableInner'),
+            I(RAW, r'^impl RawTableInner$', 'record_item_insert_at', impl='RawTableInner'),
+            I(RAW, r'^impl RawTableInner$', 'erase', impl='RawTableInner'),
+        ],
+    ),
     'arith': dict(
         widths=[16, 8],
         prelude='preludes/arith.rs',
@@ -68,12 +94,87 @@ def pow2_assert_rule(toks, i, out, hit):
     return None
 
 
+def _args_until_close(toks, k):
+    """toks[k] == '(' ; return (index of matching ')', tokens inside)"""
+    j = extract._find_close(toks, k)
+    return j, toks[k + 1:j]
+
+
+def ctrl_rules(toks, i, out, hit):
+    """R5/R6: the control-byte array is a Vec<u8> in the dialect.
+       `*self.ctrl(E) = V;`              -> `self.ctrl_set(E, V);`
+       `*self.ctrl(E)` / `(*self.ctrl(E))` -> `self.ctrl_get(E)`
+       `Group::load(self.ctrl(E))`        -> `self.group_load(E)`   (also load_aligned)
+       every access thereby carries the in-bounds precondition of the shim."""
+    r = pow2_assert_rule(toks, i, out, hit)
+    if r is not None:
+        return r
+    t = toks[i]
+    n = len(toks)
+    # R11: size_of of the machine-word types is a literal on the 64-bit target the units assume
+    if t.text == 'mem' and i + 8 < n and [x.text for x in toks[i + 1:i + 6]] == [':', ':', 'size_of', ':', ':'] \
+            and toks[i + 6].text == '<' and toks[i + 7].text in ('usize', 'u64') and [x.text for x in toks[i + 8:i + 11]] == ['>', '(', ')']:
+        out.append(extract.T('8', t.gap))
+        hit('R11_size_of_usize_u64_is_8_on_64bit')
+        return i + 11
+
+    def seq(k, *texts):
+        return k + len(texts) <= n and all(toks[k + a].text == x for a, x in enumerate(texts))
+
+    # Group::load(self.ctrl(E)) / Group::load_aligned(self.ctrl(E))
+    if t.text == 'Group' and seq(i + 1, ':', ':') and toks[i + 3].text in ('load', 'load_aligned') and seq(i + 4, '('):
+        for recv in ('self', 'guard', 'table'):
+            if seq(i + 5, recv, '.', 'ctrl', '('):
+                close_inner, args = _args_until_close(toks, i + 8)
+                close_outer = extract._find_close(toks, i + 4)
+                if close_outer != close_inner + 1:
+                    raise ExtractError('R6: unexpected shape of Group::load argument')
+                name = 'group_load' if toks[i + 3].text == 'load' else 'group_load_aligned'
+                out.extend([extract.T(recv, t.gap), extract.T('.', ''), extract.T(name, ''), extract.T('(', '')])
+                out.extend(extract.rewrite(args, set(), {}, ctrl_rules))
+                out.append(extract.T(')', ''))
+                hit('R6_group_load_of_ctrl_pointer_to_indexed_load')
+                return close_outer + 1
+    # *self.ctrl(E) ...
+    if t.text == '*' and seq(i + 1, 'self', '.', 'ctrl', '(') and not (out and (out[-1].kind in ('id', 'num') or out[-1].text in (')', ']'))):
+        close, args = _args_until_close(toks, i + 4)
+        args = extract.rewrite(args, set(), {}, ctrl_rules)
+        nxt = toks[close + 1] if close + 1 < n else None
+        nxt2 = toks[close + 2] if close + 2 < n else None
+        if nxt is not None and nxt.text == '=' and not (nxt2 is not None and nxt2.text == '=' and nxt2.gap == ''):
+            # assignment statement: find ';'
+            k = close + 2
+            depth = 0
+            while k < n and not (toks[k].text == ';' and depth == 0):
+                if toks[k].text in '([{':
+                    depth += 1
+                elif toks[k].text in ')]}':
+                    depth -= 1
+                k += 1
+            rhs = extract.rewrite(toks[close + 2:k], set(), {}, ctrl_rules)
+            out.extend([extract.T('self', t.gap), extract.T('.', ''), extract.T('ctrl_set', ''), extract.T('(', '')])
+            out.extend(args)
+            out.append(extract.T(',', ''))
+            out.extend(rhs)
+            out.append(extract.T(')', ''))
+            hit('R5_ctrl_pointer_write_to_indexed_write')
+            return k  # the ';' is emitted by the caller loop
+        out.extend([extract.T('self', t.gap), extract.T('.', ''), extract.T('ctrl_get', ''), extract.T('(', '')])
+        out.extend(args)
+        out.append(extract.T(')', ''))
+        hit('R5_ctrl_pointer_read_to_indexed_read')
+        return close + 1
+    return None
+
+
 def generate(unit_name, width, outdir):
     u = UNITS[unit_name]
     specs = extract.parse_vspec(os.path.join(VERIF, u['specs']))
     hits = {}
     rules = set(u.get('rules', []))
     extra = u.get('extra', pow2_assert_rule)
+    if isinstance(extra, str):
+        extra = globals()[extra]
     free, impls, meta = [], {}, []
     for it in u['items']:
         spec = specs.get(it['key'])
@@ -92,7 +193,7 @@ def generate(unit_name, width, outdir):
                          sha256=item['sha'], tokens=item['ntokens']))
     prelude = open(os.path.join(VERIF, u['prelude'])).read().replace('@WIDTH@', str(width))
     parts = ['// GENERATED by /verif/lib/vunits.py from /repo working tree -- do not edit\n',
-             'use vstd::prelude::*;\nverus! {\n', prelude, '\n']
+             'use vstd::prelude::*;\n#[allow(unused_imports)]\nuse core::mem;\nverus! {\n', prelude, '\n']
     parts += [f + '\n\n' for f in free]
     for name, fns in impls.items():
         parts.append('impl %s {\n%s\n}\n\n' % (name, '\n\n'.join(fns)))
